@@ -168,6 +168,11 @@ func (cr *caseRunner) run(s scenario) {
 				ev.Reps = append(ev.Reps, cr.in.answerID(c2, ro.hits))
 				ev.RepKind = append(ev.RepKind, "reloaded")
 			}
+		} else if c.fresh != nil { // same content, built again: has never answered a query
+			c2 := wrapCorpus(c.name, c.fresh(), nil, "")
+			ro, _ := runEntry(c2, s, q)
+			ev.Reps = append(ev.Reps, cr.in.answerID(c2, ro.hits))
+			ev.RepKind = append(ev.RepKind, "reloaded")
 		}
 		// "did you mean" suggestions, repeated and on a re-loaded copy
 		if len(out.hits) == 0 || cr.tr%7 == 0 {
@@ -307,7 +312,13 @@ func childAnswer(s scenario) (string, bool) {
 	if err != nil {
 		return "", false
 	}
-	return strings.TrimSpace(string(out)), true
+	// (the engine may print warnings of its own, e.g. when it falls back to the built-in database)
+	for _, line := range strings.Split(string(out), "\n") {
+		if strings.HasPrefix(line, "ANSWER:") {
+			return strings.TrimPrefix(line, "ANSWER:"), true
+		}
+	}
+	return "", false
 }
 
 func engineOne(args []string) int {
@@ -328,7 +339,7 @@ func engineOne(args []string) int {
 		}
 		fmt.Fprintf(&b, "%d:%x;", d, mathBits(h.score))
 	}
-	fmt.Println(b.String())
+	fmt.Println("ANSWER:" + b.String())
 	return 0
 }
 
